@@ -819,7 +819,8 @@ def roundtrip_strategy(max_gens, max_edges, max_salts):
                 "mode": mode, "cfg_extra": draw(cfg_extra_strategy()),
                 "ctx_shape": draw(st.sampled_from(["both", "both", "cfg", "config"])),
                 "clock_step_ns": draw(st.sampled_from(CLOCK_STEPS_NS)),
-                "clock": draw(st.sampled_from(["explicit", "explicit", "natural"]))}
+                "clock": draw(st.sampled_from(["explicit", "explicit", "natural"])),
+                "boot_prelude": draw(st.booleans())}
 
     return cases()
 
@@ -1254,6 +1255,8 @@ def _check_meta(where, meta, graph, n_pairs, V, labels, count=True):
     if count and meta.get("edges_count") != n_pairs:
         V(f"{where}: meta.edges_count = {meta.get('edges_count')!r} but {n_pairs} edges are stored", "meta-edges-count")
     meta_in = graph.get("meta") if isinstance(graph, dict) else None
+    if meta_in is None:
+        meta_in = {}  # no graph / no meta at all: a state without any merge, split or promotion history
     if not isinstance(meta_in, dict):
         return
     for k in ("merges", "splits", "promotions"):
@@ -1263,6 +1266,9 @@ def _check_meta(where, meta, graph, n_pairs, V, labels, count=True):
                 V(f"{where}: meta.{k} = {short(meta.get(k))} but the state held {short(v)}", "meta-list")
         elif k in meta_in:
             labels.add("meta:junk-field")
+        elif meta.get(k) != []:
+            # the state has no such history: the documented default is an empty container -- never somebody else's
+            V(f"{where}: meta.{k} = {short(meta.get(k))} although the state written has no {k} history at all", "meta-list-foreign")
     c = meta_in.get("concept_nodes_count")
     if isinstance(c, int) and not isinstance(c, bool):
         if meta.get("concept_nodes_count") != c:
@@ -1318,6 +1324,23 @@ def run_history(case):
         natural = case.get("clock") == "natural"
         labels.add("clock:" + ("natural(mtimes-left-by-the-writer)" if natural else "explicit"))
         clock = Clock(step_ns, natural=natural, root=root)
+        if case.get("boot_prelude"):
+            # Another state of this process boots from an EMPTY snapshot directory and then lives on: everything the loader
+            # put on it is edited in place (the GEL layer appends to state.graph["meta"]["merges"] ...). Nothing of that
+            # may show up in the bodies / loaded states of the history proper.
+            labels.add("prelude:boot-from-empty-dir-then-edit-in-place")
+            ecfg, _ = make_cfg(case["lo"], case["hi"], root, "explicit", extra)
+            ecfg["t4"]["snapshot_dir"] = os.path.join(root, "empty")
+            scratch = {"store": WStore(), "version_etag": "untouched"}
+            r0 = S.load_latest_snapshot(make_ctx(ecfg, "Z", 0, ctx_shape), scratch)
+            g0 = scratch.get("graph")
+            if not isinstance(r0, dict) or r0.get("loaded") or r0.get("path") is not None or scratch.get("version_etag") != "untouched" \
+                    or scratch["store"].w or not isinstance(g0, dict) or g0.get("edges") != {} or g0.get("nodes") != {} \
+                    or not isinstance(g0.get("meta"), dict) or any(g0["meta"].get(k) != [] for k in ("merges", "splits", "promotions")):
+                raise Violation(f"boot from an empty snapshot directory: load_latest_snapshot -> {short(r0)}, state {short({k: v for k, v in scratch.items() if k != 'store'}, 500)}"
+                                f" -- expected nothing loaded and empty graph containers", case, "empty-dir-boot")
+            _poison_deep(scratch.get("graph"))
+            _poison_deep(scratch.get("gel"))
         prev_loaded_graph = None
         prev = None  # what the previous generation left behind: {"path","version","gel","lo","hi"}
         agents_seen = []
